@@ -757,7 +757,34 @@ func run(spec Spec) Case {
 		}
 		time.Sleep(300 * ms)
 		s.tun(per)
-		if spec.Var == "exchange" {
+		if spec.Var == "arrival" {
+			// data sent at t0, no transport reply; the ONLY authenticated arrival before the 15 s mark is,
+			// by spec.N: 0 a data message, 1 a keepalive, 2 a handshake initiation of the peer (its
+			// confirmation withheld), 3 a handshake response (to a re-handshake forced by ageing the key).
+			// Each must cancel the new-handshake timer: no initiation at t0 + 15 s + jitter.
+			t0 := time.Now()
+			time.Sleep(time.Duration(1000+spec.Delay*3%1500) * ms)
+			switch spec.N {
+			case 0:
+				s.recvData()
+			case 1:
+				s.recvKa()
+			case 2:
+				s.refInit()
+			default:
+				n0 := s.countInit()
+				s.shiftKeys(181)
+				s.shiftHs(6)
+				s.tun(1)
+				if i2 := s.waitInit(n0+1, s.since()+2*sec); i2 != nil {
+					time.Sleep(20 * ms)
+					s.answer(i2)
+				} else {
+					s.err = "no initiation for the packet queued behind the aged key"
+				}
+			}
+			time.Sleep(time.Until(t0.Add(15334*ms + 600*ms)))
+		} else if spec.Var == "exchange" {
 			// an answered exchange first (the reply arrives while the timer is pending and
 			// deletes it), then data into silence: the timer must be armed again
 			time.Sleep(time.Duration(200+spec.Delay*3%600) * ms)
@@ -1055,6 +1082,11 @@ func quickSpecs(r *rand.Rand) []Spec {
 		{Kind: "newhs", Role: "resp", Per: 1, Delay: d()},
 		{Kind: "newhs", Role: "init", Per: 2, Var: "twice", Delay: d()},
 		{Kind: "newhs", Role: "resp", Per: 1, Var: "answered", Delay: d()},
+		{Kind: "newhs", Role: "init", Per: 1, N: 0, Var: "arrival", Delay: d()},
+		{Kind: "newhs", Role: "resp", Per: 2, N: 1, Var: "arrival", Delay: d()},
+		{Kind: "newhs", Role: "init", Per: 1, N: 2, Var: "arrival", Delay: d()},
+		{Kind: "newhs", Role: "resp", Per: 1, N: 2, Var: "arrival", Delay: d()},
+		{Kind: "newhs", Role: "init", Per: 2, N: 3, Var: "arrival", Delay: d()},
 		{Kind: "newhs", Role: "init", Per: 1, Var: "exchange", Delay: d()},
 		{Kind: "newhs", Role: "resp", Per: 2, Var: "exchange", Delay: d()},
 		{Kind: "persist", Pka: 1, N: 3, Var: "uapi", Delay: d()},
